@@ -162,6 +162,9 @@ class CallMixin:
                         # a real __init__(self, ...): allocate, initialise, return the object
                         me, st0 = self.fresh(ci.self_type, "new", st)
                         self._arg_nodes = ([], {})
+                        decl = self.classes.get(ci.self_type.cls)
+                        for a_ in getattr(decl, "alloc_assume", ()) or ():
+                            st0 = st0.assume(self.spec(a_, st0, env={"self": me}))   # dynamic class of a new object
                         for st1, _ in self.call_contract(ci, [me] + list(args), kwargs, st0, sink, n):
                             yield st1, me
                         return
@@ -508,16 +511,17 @@ class CallMixin:
         env = self.spec_env_for_call(c, bound, st)
         self.stats["calls"] += 1
         self.called.add(c.key)
-        pre = st.clone(env={**st.env, **env})
+        # the callee's spec expressions see the callee's names only (parameters, captures), never the caller's locals
+        pre = st.clone(env=dict(env))
         # 1. preconditions
         for i, r in enumerate(c.requires):
-            goal = self.spec(r, pre, env=env, old=pre)
+            goal = self.spec(r, pre, env=env, old=pre, isolate=True)
             self.emit("pre@call", f"{c.key}#req{i + 1}", n, pre, goal, note=r if isinstance(r, str) else "")
         # 2. termination measure for recursion inside a group
         cur = self.current
         if cur is not None and c.decreases is not None and cur.decreases is not None and \
                 c.rec_group is not None and c.rec_group == cur.rec_group:
-            callee_m = self.tuple_items(self.spec(c.decreases, pre, env=env, old=pre, want_bool=False))
+            callee_m = self.tuple_items(self.spec(c.decreases, pre, env=env, old=pre, want_bool=False, isolate=True))
             caller_m = self.entry_measure
             goal = z3.And(self.lex_lt(callee_m, caller_m), *[m.z >= 0 for m in callee_m])
             self.emit("decreases", f"{c.key}", n, pre, goal)
@@ -527,14 +531,14 @@ class CallMixin:
         env_post = self.spec_env_for_call(c, bound, post)
         env_post.update(newvals)
         if c.returns_expr is not None:
-            res = self.spec(c.returns_expr, post, env=env_post, old=pre, want_bool=False)
+            res = self.spec(c.returns_expr, post, env=env_post, old=pre, want_bool=False, isolate=True)
             if c.returns is not None:
                 res = self.coerce(res, c.returns, n)
         elif c.returns is None or c.returns is T.NONE:
             res = self.lift(None)
         else:
             res, post = self.fresh(c.returns, "ret", post)
-        ens = [self.spec(e, post, env=env_post, old=pre, result=res) for e in c.ensures]
+        ens = [self.spec(e, post, env=env_post, old=pre, result=res, isolate=True) for e in c.ensures]
         # definitional entry assumptions of the callee (it introduces spec symbols such as deps0 / bstat0 as
         # names for parts of ITS entry state): a conservative extension as long as the symbols are fresh here
         defs = []
@@ -543,11 +547,11 @@ class CallMixin:
             if set(c.defines) <= cur_defs and not self.symbols_fresh(c, pre):
                 # the caller introduced the same symbols itself: the callee's definitions are proof obligations
                 for i, e in enumerate(c.entry_assume):
-                    self.emit("pre@call", f"{c.key}#def{i + 1}", n, pre, self.spec(e, pre, env=env, old=pre),
+                    self.emit("pre@call", f"{c.key}#def{i + 1}", n, pre, self.spec(e, pre, env=env, old=pre, isolate=True),
                               note=e if isinstance(e, str) else "")
             else:
                 self.check_fresh_symbols(c, pre, n)
-                defs = [self.spec(e, pre, env=env, old=pre) for e in c.entry_assume]
+                defs = [self.spec(e, pre, env=env, old=pre, isolate=True) for e in c.entry_assume]
         normal = post.assume(*(defs + ens))
         # 4. exceptional returns
         for ename, spec in c.raises.items():
@@ -562,8 +566,8 @@ class CallMixin:
             est = self.havoc_modifies(c, [m for m in mods if m not in c.params], env, est, pre)
             env_e = self.spec_env_for_call(c, bound, est)
             env_e.update(newvals_e)
-            cz = self.spec(cond, est, env=env_e, old=pre)
-            ez = [self.spec(e, est, env=env_e, old=pre) for e in list(eens) + list(c.exc_ensures)]
+            cz = self.spec(cond, est, env=env_e, old=pre, isolate=True)
+            ez = [self.spec(e, est, env=env_e, old=pre, isolate=True) for e in list(eens) + list(c.exc_ensures)]
             if self.feasible(est, zand(cz, *ez)):
                 sink.append((est.assume(cz, *(ez + defs)), Exc(cls, exact=exact)))
         if c.meta_noreturn if hasattr(c, "meta_noreturn") else False:
